@@ -73,8 +73,10 @@ static int include_next_idx;
 static Token *preprocess2(Token *tok);
 static Macro *find_macro(Token *tok);
 
+// Returns true if tok starts a preprocessing directive. A "#" that is
+// the result of macro replacement never does (C11 6.10.3.4p3).
 static bool is_hash(Token *tok) {
-  return tok->at_bol && equal(tok, "#");
+  return tok->at_bol && equal(tok, "#") && !tok->origin;
 }
 
 // Some preprocessor directives such as #include allow extraneous
@@ -641,6 +643,27 @@ static Token *subst(Token *tok, MacroArg *args) {
   return head.next;
 }
 
+// The first token of a macro expansion takes the place of the macro
+// token on its line. If the expansion is empty, `first` is the token
+// that follows the invocation: it keeps its own position (it may
+// start a line, and then it may start a directive), except that it
+// now begins the line if the macro did. A "#" is left alone so that
+// it cannot become the start of a directive that way.
+static void inherit_position(Token *first, Token *body, Token *macro_token) {
+  if (body->kind != TK_EOF) {
+    first->at_bol = macro_token->at_bol;
+    first->has_space = macro_token->has_space;
+    return;
+  }
+
+  if (first->kind == TK_EOF)
+    return;
+  if (macro_token->at_bol && !equal(first, "#"))
+    first->at_bol = true;
+  if (macro_token->has_space)
+    first->has_space = true;
+}
+
 // If tok is a macro, expand it and return true.
 // Otherwise, do nothing and return false.
 static bool expand_macro(Token **rest, Token *tok) {
@@ -665,8 +688,7 @@ static bool expand_macro(Token **rest, Token *tok) {
     for (Token *t = body; t->kind != TK_EOF; t = t->next)
       t->origin = tok;
     *rest = append(body, tok->next);
-    (*rest)->at_bol = tok->at_bol;
-    (*rest)->has_space = tok->has_space;
+    inherit_position(*rest, body, tok);
     return true;
   }
 
@@ -693,8 +715,7 @@ static bool expand_macro(Token **rest, Token *tok) {
   for (Token *t = body; t->kind != TK_EOF; t = t->next)
     t->origin = macro_token;
   *rest = append(body, tok->next);
-  (*rest)->at_bol = macro_token->at_bol;
-  (*rest)->has_space = macro_token->has_space;
+  inherit_position(*rest, body, macro_token);
   return true;
 }
 
